@@ -183,6 +183,8 @@ impl Entities {
                         entities_touched.insert(entity.uid().clone());
                     }
                 }
+                #[cfg(feature = "verif-trace")]
+                verif_op.before_repair(&self.entities, &entities_touched);
                 repair_tc(&entities_touched, &mut self.entities, true)?
             }
         };
@@ -234,7 +236,11 @@ impl Entities {
         match tc_computation {
             TCComputation::AssumeAlreadyComputed => (),
             TCComputation::EnforceAlreadyComputed => enforce_tc_and_dag(&self.entities)?,
-            TCComputation::ComputeNow => repair_tc(&entities_touched, &mut self.entities, true)?,
+            TCComputation::ComputeNow => {
+                #[cfg(feature = "verif-trace")]
+                verif_op.before_repair(&self.entities, &entities_touched);
+                repair_tc(&entities_touched, &mut self.entities, true)?
+            }
         }
         #[cfg(feature = "verif-trace")]
         verif_op.ok(crate::verif_trace::project_entities(&self.entities));
@@ -307,6 +313,8 @@ impl Entities {
                         entities_touched.insert(entity.uid().clone());
                     }
                 }
+                #[cfg(feature = "verif-trace")]
+                verif_op.before_repair(&self.entities, &entities_touched);
                 repair_tc(&entities_touched, &mut self.entities, true)?
             }
         };
